@@ -184,7 +184,7 @@ Definition corr_b (c : case) : bool := corr_run (c_init c) (c_steps c).
 
 (* ---- input requirements ------------------------------------------------------------------------
    every request / event names an existing instrument (the code panics otherwise: user error),
-   trade quantities are positive *)
+   (fill quantities may be anything, incl. zero: the model mirrors the code) *)
 
 Definition cmd_insts (c : command) : list N :=
   match c with
@@ -213,7 +213,7 @@ Definition step_insts (st : step) : list N :=
 Definition step_valid (n : N) (st : step) : bool :=
   forallb (fun i => N.ltb i n) (step_insts st) &&
   match st_op st with
-  | OpProcess (EvTrade _ _ q) => Z.ltb 0 q
+  | OpProcess (EvTrade _ _ q) => true                (* any fill quantity, incl. zero: mirrored by the model *)
   | OpProcess (EvMarketL1 _ _ b) => l1_ok b          (* exact mid-price, non-zero total amount *)
   | _ => true
   end &&
@@ -221,3 +221,30 @@ Definition step_valid (n : N) (st : step) : bool :=
 Definition valid_case (c : case) : bool :=
   state_wf (c_init c) && forallb (fun i => l1_ok (md_l1 (i_data i))) (insts (c_init c)) &&
   forallb (step_valid (N.of_nat (length (insts (c_init c))))) (c_steps c).
+
+(** Fills on degenerate positions are outside the input requirements of C03 / C19 (they belong to
+    the position / PnL properties): a zero-quantity fill with no position open creates a Position
+    whose quantity_abs_max is 0, and the next priced market event or fill then PANICS in
+    approximate_remaining_exit_fees (0 / 0); fills against zero- or negative-size positions
+    (written directly into the state by the harness for the close-positions scope) divide by zero
+    likewise.  Detected by running the model; such cases are not judged. *)
+Definition degenerate_fill (s : state) (o : op) : bool :=
+  match o with
+  | OpProcess (EvTrade i _ q) =>
+      match nthN (insts s) i with
+      | Some x => match i_pos x with
+                  | None => Z.eqb q 0
+                  | Some p => Z.leb (p_qty p) 0
+                  end
+      | None => false
+      end
+  | _ => false
+  end.
+Fixpoint degenerate_run (s : state) (steps : list step) : bool :=
+  match steps with
+  | [] => false
+  | st :: rest =>
+      let s0 := mkState (trading s) (map clear_link (links s)) (insts s) in
+      degenerate_fill s0 (st_op st) || degenerate_run (fst (model_step s0 st)) rest
+  end.
+Definition degenerate_b (c : case) : bool := degenerate_run (c_init c) (c_steps c).
